@@ -27,6 +27,8 @@ try:
     ids = [c["property_id"] for c in man["checks"]]
     if want:
         ids = [i for i in ids if i in want]
+    skip = os.environ.get("MX_SKIP", "").split()
+    ids = [i for i in ids if i not in skip]
     env = dict(os.environ, VERIF_JOBS=os.environ.get("VERIF_JOBS", "16"))
     res = {}
     for pid in ids:
